@@ -781,12 +781,27 @@ class System:
     @contextmanager
     def trace_stack(self, maxlen):
         """Context manager to activate stack trace in with statements"""
-        self.start_stacktrace(maxlen)
+        outer = self.callstack if self._is_stacktrace_active() else None
+        if outer is None:
+            self.start_stacktrace(maxlen)
+        elif self.callstack.is_empty():
+            # The user's trace is kept aside: its records are not
+            # this trace's, and its length may be bounded
+            self.callstack = self.executor.callstack = TraceableCallStack(
+                self.executor,
+                maxdepth=outer.maxdepth,
+                maxlen=maxlen
+            )
+        else:
+            raise RuntimeError("callstack not empy")
         try:
             yield None
         finally:
-            self.clear_stacktrace()
-            self.stop_stacktrace()
+            if outer is None:
+                self.clear_stacktrace()
+                self.stop_stacktrace()
+            else:
+                self.callstack = self.executor.callstack = outer
 
     def _check_sanity(self, check_members=True):
         self.iomanager._check_sanity()
